@@ -593,7 +593,14 @@ def run(cfg, ops=None, rng=None, extra=None, pre_gen=None, handle=None):
             try:
                 status, exc = exec_op(world, op)
             except Watchdog as wd:
-                raise Violation(prop if prop in ("C01", "C20") else "GUARD", "hang", step, "hang:" + op["op"], str(wd))
+                # no call on a forest of a dozen nodes takes this long: the call does not terminate
+                raise Violation(
+                    prop if prop in ("C01", "C02", "C20") else "GUARD",
+                    "hang",
+                    step,
+                    "hang:" + op["op"],
+                    "step %d %s neither returned nor raised: %s" % (step, op, wd),
+                )
             newidx = None
             if op["op"] == "new":
                 # the constructed object exists from now on, whatever the outcome
@@ -638,10 +645,27 @@ def run(cfg, ops=None, rng=None, extra=None, pre_gen=None, handle=None):
                 or status == "exc"
                 or last
                 or (obs_every and step % obs_every == obs_every - 1)
+                or (exp.exc is not None)  # the model says 'refused' but the call went through: look
             )
             if not observe:
                 apply_op(model, op, newidx)
                 continue
+            # the snapshot reads .parent/.children of every node and never walks the
+            # structure, so it is safe even on a corrupt forest; the structure-comparing
+            # oracles (C02, C03, C16) therefore judge before the consistency guard
+            post = world.snapshot()
+            h.update(repr(post).encode())
+            res.states.add(stable_hash(post))
+            if status == "ok":
+                apply_op(model, op, newidx)
+            ideal = model.snapshot()
+            if prop == "C02":
+                c02_judge(step, op, exp, status, excname, exc, fired, post, ideal, prop)
+            elif prop == "C03":
+                if status == "exc":
+                    c03_judge(res, step, op, exp, pre, post, fired, excname)
+            elif prop == "C16":
+                c16_judge(step, op, exp, status, excname, exc, fired, log, pre, post, cfg)
             bad = invariants.check_forest(world)
             if bad:
                 clause, _ = bad[0]
@@ -653,19 +677,8 @@ def run(cfg, ops=None, rng=None, extra=None, pre_gen=None, handle=None):
                     "after step %d %s (faults: %s): %s"
                     % (step, op, fired_brief(fired) or "none", "; ".join(d for _, d in bad[:3])),
                 )
-            post = world.snapshot()
-            h.update(repr(post).encode())
-            res.states.add(stable_hash(post))
-            if status == "ok":
-                apply_op(model, op, newidx)
-            ideal = model.snapshot()
-            if prop in ("C02", "C20"):
+            if prop == "C20":
                 c02_judge(step, op, exp, status, excname, exc, fired, post, ideal, prop)
-            elif prop == "C03":
-                if status == "exc":
-                    c03_judge(res, step, op, exp, pre, post, fired, excname)
-            elif prop == "C16":
-                c16_judge(step, op, exp, status, excname, exc, fired, log, pre, post, cfg)
             if post != ideal:
                 # continue from what is really there (only C02/C03 judge the difference)
                 model.load(post)
